@@ -87,9 +87,15 @@ func (e *Engine) EnableStub(name, kind string) {
 			c.St.Nondets = append(c.St.Nondets, NondetRec{Tag: "subst.ok", Kind: "bool", Term: ok})
 			errv := c.E.newErrorString(c.St, StrC("exec: command failed"))
 			ev := func(s *State) { s.Events = append(s.Events, Event{Kind: "exec", Args: []Value{in}, Thr: c.Th.ID}) }
+			// a NUL byte in the command makes fork/exec fail natively whatever the replay's fake
+			// shell says: the success outcome stays in the exploration (over-approximation) but
+			// is not used as a translator-validation sample
+			nul := StrContains(in, StrC("\x00"))
+			evNul := func(s *State) { ev(s); s.NoReplay = true }
 			return c.Outcomes(c.sol2(), []Outcome{
 				{Cond: Not(m), Ret: Tuple{in, Iface{}}},
-				{Cond: And(m, ok), Ret: Tuple{out, Iface{}}, Eff: ev},
+				{Cond: And(m, ok, Not(nul)), Ret: Tuple{out, Iface{}}, Eff: ev},
+				{Cond: And(m, ok, nul), Ret: Tuple{out, Iface{}}, Eff: evNul},
 				{Cond: And(m, Not(ok)), Ret: Tuple{StrC(""), errv}, Eff: ev},
 			})
 		}
